@@ -18,6 +18,14 @@ FOCI8 = [
 ]
 if N >= 8:
     FOCI = FOCI8
+FOCI9 = [
+ "a modernisation: a hand-written loop or helper replaced by a newer standard-library facility (slices, maps, strings.Cut/CutPrefix, bytes.Buffer.AvailableBuffer, sync.OnceValue/OnceFunc, context.WithoutCancel/AfterFunc, atomic types, min/max, clear, range-over-int) whose semantics differ in an edge case",
+ "a security hardening: a new limit, sanitising or normalising of client-supplied text, stricter validation, zeroing of secrets, constant-time comparison, refusing suspicious input - which also rejects, alters or loses something legitimate",
+ "an over-correcting bug fix for a different (real or imagined) problem: 'fix' a double or missing ReadyForQuery, a missing flush, a leak, a race, an unchecked error - and thereby change behaviour on a neighbouring path",
+ "an API-ergonomics change: an exported helper or option gets new behaviour for nil / zero / empty arguments, returns a shared instead of a fresh object (or the reverse), accepts a wider input, or changes what it does when called twice",
+]
+if N >= 9:
+    FOCI = FOCI9
 props = [json.loads(l) for l in open('/verif/properties.jsonl')]
 earlier = {}
 for f in sorted(glob.glob('/verif/seeded/*/meta.json')):
